@@ -403,16 +403,14 @@ def gen_str(rng, maxbytes, avoid=(), no_trail0=True):
 
 
 def flag_int(n_opt: Node, ctxd):
-    """OptionalFlagged._normalize_flag_val on the dict generated so far"""
+    """OptionalFlagged._normalize_flag_val (of the REAL object) on the dict generated so far"""
     from harness.translate import c08_specs as S
-    f, ftbl, mask = n_opt.a
-    v = (ctxd or {}).get(S.key_name(f))
-    if v is None:
+    if ctxd is None:
+        raise NoValue("no enclosing template")
+    try:
+        return int(S.build(n_opt)._normalize_flag_val(ctxd))
+    except Exception:
         raise NoValue("flag field missing")
-    if ftbl is None:
-        return int(v)
-    se, _ = mods()
-    return int(se.IntFlag(S.flag_cls(ftbl)).encode(v, None))
 
 
 def gen_value(n: Node, pod: bool, rng, ctxd=None):
@@ -425,7 +423,9 @@ def gen_value(n: Node, pod: bool, rng, ctxd=None):
         return None
     if k == "coord":
         comps = [gen_value(c, pod, rng) for c in n.ch]
-        return tuple(comps) if pod else getattr(se, a[0]).COORD_CLS(*comps)
+        if pod:
+            return tuple(comps)
+        return dt.Quaternion(*comps) if n.x.get("quat") else getattr(se, a[0]).COORD_CLS(*comps)
     if k == "dataclass":
         from harness.translate import c08_specs as S
         out = {}
@@ -458,12 +458,13 @@ def gen_value(n: Node, pod: bool, rng, ctxd=None):
     if k == "tuple":
         return [gen_value(c, pod, rng) for c in n.ch]
     if k == "template":
+        from harness.translate import c08_specs as S
         out = {}
-        for nm, c in zip(a[0], n.ch):
+        for kk, c in zip(S.tkeys(n), n.ch):
             v = gen_value(c, pod, rng, out)
             if c.k in ("opt", "optflagged") and a[1] and v is None:
                 continue
-            out["f%d" % nm] = v
+            out[kk] = v
         return out
     if k == "coll":
         lk = a[0]
@@ -529,9 +530,38 @@ def gen_sadapter_int(ad, lo, hi, pod, rng):
     return dt.flags_to_pod(flag_cls(ad[1]), z) if pod else z
 
 
+def gen_decoded(n, pod, rng):
+    """registry adapters: a value of the domain = what the REAL adapter decodes from a wire int of the child's domain"""
+    from harness.translate import c08_specs as S
+    ad = n.a[0]
+    obj = S.build(n)
+    p = S._prim_of(n)
+    lo, hi = ip_range(p.a[0] == "s", p.a[1])
+    if ad[0] == "bitfield":
+        total = sum(e[1] for e in ad[2])
+        hi = min(hi, (1 << total) - 1)
+        lo = 0
+    cands = None
+    if ad[0] == "enum":
+        members = [z for _, z in ad[2] if lo <= z <= hi]
+        if ad[1] or (members and rng.random() < 0.7):
+            cands = members
+            if not cands:
+                raise NoValue("no member fits")
+    for _ in range(12):
+        z = rng.choice(cands) if cands else gen_int(rng, lo, hi)
+        try:
+            return obj.decode(z, ctx=None, pod=pod)
+        except Exception:
+            continue
+    raise NoValue("adapter decodes nothing")
+
+
 def gen_adapter_value(n, pod, rng):
     ad = n.a[0]
     c = n.ch[0]
+    if ad[0] != "opaque" and (n.x.get("names") or n.x.get("bkeys")):
+        return gen_decoded(n, pod, rng)
     if ad[0] == "opaque":
         from harness.translate import c08_specs as S
         p = S._prim_of(n)
@@ -614,7 +644,8 @@ def gen_bad(n: Node, pod: bool, rng, budget=70000):
         return _bad_in_children(n, pod, rng, budget, lambda vals: vals)
     if k == "template":
         def mk(vals):
-            return {"f%d" % nm: v for nm, v in zip(a[0], vals)}
+            from harness.translate import c08_specs as S
+            return dict(zip(S.tkeys(n), vals))
         return _bad_in_children(n, pod, rng, budget, mk)
     if k == "coll":
         lk = a[0]
@@ -652,12 +683,16 @@ def gen_bad(n: Node, pod: bool, rng, budget=70000):
         if ad[0] == "bitfield":
             if not ad[1]:
                 return None
+            from harness.translate import c08_specs as S
+            import dataclasses
             good = gen_adapter_value(n, pod, rng)
-            plain = [e for e in ad[2] if e[2] is None]
+            if dataclasses.is_dataclass(good):
+                good = {f.name: getattr(good, f.name) for f in dataclasses.fields(good)}
+            plain = [(e, kk) for e, kk in zip(ad[2], S.bf_keys(n)) if e[2] is None]
             if not plain:
                 return None
-            nm, bits, _ = rng.choice(plain)
-            good["b%d" % nm] = (1 << bits) + rng.randrange(0, 3)
+            (nm, bits, _), kk = rng.choice(plain)
+            good[kk] = (1 << bits) + rng.randrange(0, 3)
             return good
         if ad[0] == "opaque":
             return None
